@@ -54,21 +54,26 @@ class UDPListener:
             self.sock.setsockopt(socket.SOL_SOCKET, socket.SO_BROADCAST, 1)
         self.sock.bind(('0.0.0.0', UDP_PORT))
 
-        available = MAX_MESSAGE_LEN - len(self._getMessage(2**16-1))
-        if available < 0:
-            desc_length = len(self.description.encode('utf-8'))
-            if available + desc_length < 0:
+        if len(self._getMessage(2**16-1)) > MAX_MESSAGE_LEN:
+            full, self.description = self.description, ''
+            if len(self._getMessage(2**16-1)) > MAX_MESSAGE_LEN:
                 self.log.warn('Equipment id and firmware name exceed 430 byte '
                               'limit, not answering to udp discovery')
                 self.is_enabled = False
             else:
                 self.log.debug('truncating description for udp discovery')
-                # with errors='ignore', cutting insite a utf-8 glyph will not
-                # report an error but remove the rest of the glyph from the
-                # output.
-                self.description = self.description \
-                                       .encode('utf-8')[:available] \
-                                       .decode('utf-8', errors='ignore')
+                # find the longest prefix (in characters) for which the encoded
+                # message fits. the encoded length has to be measured, as characters
+                # needing a JSON escape take more room than their utf-8 encoding
+                lo, hi = 0, len(full)
+                while lo < hi:
+                    mid = (lo + hi + 1) // 2
+                    self.description = full[:mid]
+                    if len(self._getMessage(2**16-1)) <= MAX_MESSAGE_LEN:
+                        lo = mid
+                    else:
+                        hi = mid - 1
+                self.description = full[:lo]
 
     def _getMessage(self, port):
         return json.dumps({
